@@ -22,7 +22,8 @@ Ev == Rec[l]
 
 IsSubOrder(old, new) == SelectSeq(new, LAMBDA x : x \in Range(old)) = old
 \* whatever was loaded from the file is placed: its relative order never changes (only sort() may change it)
-KeepsLoaded == "all" \notin DOMAIN Ev \/ IsSubOrder(loadedAll, Ev.all)
+\* (IF, not a disjunction: inside an action TLC evaluates both disjuncts)
+KeepsLoaded == IF "all" \in DOMAIN Ev THEN IsSubOrder(loadedAll, Ev.all) ELSE TRUE
 
 \* map the recorded orders onto the vocabulary of Placement!IdealSortNew
 EEof(before) == [i \in 1..Len(before) |->
